@@ -216,16 +216,136 @@ theorem topGo_workA (f : Nat) (m : WModA) (rest : Toks) (acc : List Module)
   congr 3
   simp [WModA.toModule, Function.comp_def]
 
+/-! ### a `celldefine` module with attributes and parameters -/
+
+def leafCoreX (lf : WLeafX) : List String :=
+  starToks lf.attrs ++ "module" :: nameT lf.base.name :: (mparamToks lf.params ++ "(" ::
+    (sepNames (lf.base.ports.map (·.name)) ++ ")" :: ";" ::
+      (lf.base.ports.flatMap (fun p => portCore p.dir p.rng p.name) ++ ["endmodule"])))
+
+def leafToksX (lf : WLeafX) : List String := "`celldefine" :: (leafCoreX lf ++ ["`endcelldefine"])
+
+def leafOKX (lf : WLeafX) : Bool :=
+  leafOK lf.base && attrsOK lf.attrs && mparamsOK lf.params && cleanToks (leafCoreX lf)
+
+theorem moduleP_leafX (lf : WLeafX) (pend : Attrs) (rest : Toks) (h : leafOK lf.base = true) (hpar : mparamsOK lf.params = true) :
+    moduleP true pend ("module" :: nameT lf.base.name :: (mparamToks lf.params ++ "(" ::
+      (sepNames (lf.base.ports.map (·.name)) ++ ")" :: ";" ::
+        (lf.base.ports.flatMap (fun p => portCore p.dir p.rng p.name) ++ "endmodule" :: rest)))) =
+      .ok (⟨lf.base.name, true, pend, lf.params, lf.base.ports.map (fun p => (⟨p.name, none, none, none⟩ : HPort)),
+        lf.base.ports.map (fun p => Item.portDecl p.dir none p.rng p.name [])⟩, rest) := by
+  by_cases hp : lf.params = []
+  · rw [hp]
+    simp only [mparamToks, List.isEmpty_nil, if_true, List.nil_append]
+    exact moduleP_leaf lf.base pend rest h
+  · simp only [leafOK, Bool.and_eq_true, List.all_eq_true] at h
+    obtain ⟨⟨h2, h3⟩, _⟩ := h
+    have hn := nameTok_sound _ _ h2
+    have hpn : ∀ a ∈ lf.base.ports.map (·.name), nameTokB (nameT a) a = true := by
+      intro a ha
+      obtain ⟨p, hp', e⟩ := List.mem_map.mp ha
+      have := (h3 p hp').1
+      simp only [portOK, Bool.and_eq_true] at this
+      rw [← e]; exact this.2
+    generalize hbody : lf.base.ports.flatMap (fun p => portCore p.dir p.rng p.name) ++ "endmodule" :: rest = body
+    have hhp := headerPortsGo_toks (lf.base.ports.map (·.name)) []
+      ((sepNames (lf.base.ports.map (·.name))).length + (body.length + 1 + 1) + 1)
+      (";" :: body) (by have := sepNames_len (lf.base.ports.map (·.name)); omega) hpn
+    have hb := primBodyGo_ports lf.base.ports [] (body.length + 1) rest (by
+      rw [← hbody]
+      have : ∀ (l : List PDecl), l.length ≤ (l.flatMap (fun p => portCore p.dir p.rng p.name)).length := by
+        intro l
+        induction l with
+        | nil => simp
+        | cons a l ih =>
+          have hp1 : 1 ≤ (portCore a.dir a.rng a.name).length := by simp [portCore]
+          simp only [List.flatMap_cons, List.length_append, List.length_cons]; omega
+      have := this lf.base.ports
+      simp only [List.length_append, List.length_cons]; omega) (fun p hp' => (h3 p hp').1)
+    rw [hbody] at hb
+    have hpars := headerParams_toks lf.params ("(" :: (sepNames (lf.base.ports.map (·.name)) ++ ")" :: ";" :: body)) hp hpar
+    have hem : lf.params.isEmpty = false := by cases hq : lf.params <;> simp [hq] at hp ⊢
+    have htl : ∃ tl, mparamToks lf.params ++ "(" :: (sepNames (lf.base.ports.map (·.name)) ++ ")" :: ";" :: body) = "#" :: tl := by
+      unfold mparamToks; simp [hem]
+    obtain ⟨tl, htl'⟩ := htl
+    unfold moduleP header
+    rw [htl'] at hpars ⊢
+    simp only [expect, next, peek, bind, Except.bind, beq_self_eq_true, if_true, hn.valid, Bool.not_true, Bool.false_eq_true,
+      if_false, pure, Except.pure, hpars, List.length_append, List.length_cons]
+    simp only [List.nil_append, List.length_append, List.length_cons] at hhp
+    simp only [List.nil_append] at hb
+    rw [hhp]
+    simp only [List.nil_append, beq_self_eq_true, if_true]
+    rw [hb]
+    simp [hn.strip, List.map_map, Function.comp_def]
+
+/-- one `celldefine` module with attributes and parameters at the top level of the file -/
+theorem topGo_leafX (f : Nat) (lf : WLeafX) (rest : Toks) (acc : List Module) (h : leafOKX lf = true) :
+    topGo (f + 4) (leafToksX lf ++ rest) false [] acc = topGo (if lf.attrs = [] then f + 1 else f) rest false [] (acc ++ [lf.toModule]) := by
+  simp only [leafOKX, Bool.and_eq_true] at h
+  obtain ⟨⟨⟨hb, hat⟩, hpar⟩, _⟩ := h
+  have hm := fun pend => moduleP_leafX lf pend ("`endcelldefine" :: rest) hb hpar
+  have hattrs : lf.base.ports.map (fun p => Item.portDecl p.dir none p.rng p.name []) = lf.base.ports.map PDecl.item := by
+    apply List.map_congr_left
+    intro p hp
+    simp only [leafOK, Bool.and_eq_true, List.all_eq_true] at hb
+    have := (hb.1.2 p hp).2
+    unfold PDecl.item
+    rw [List.isEmpty_iff.mp this]
+  -- `module … endmodule `endcelldefine` with the pending attributes
+  have hmod : ∀ (g : Nat) (pend : Attrs), topGo (g + 2) ("module" :: nameT lf.base.name :: (mparamToks lf.params ++ "(" ::
+      (sepNames (lf.base.ports.map (·.name)) ++ ")" :: ";" ::
+        (lf.base.ports.flatMap (fun p => portCore p.dir p.rng p.name) ++ "endmodule" :: "`endcelldefine" :: rest)))) true pend acc =
+      topGo g rest false [] (acc ++ [⟨lf.base.name, true, pend, lf.params,
+        lf.base.ports.map (fun p => (⟨p.name, none, none, none⟩ : HPort)), lf.base.ports.map PDecl.item⟩]) := by
+    intro g pend
+    conv => lhs; unfold topGo
+    simp only [fw_module.1, fw_module.2, Bool.false_eq_true, if_false, beq_self_eq_true, if_true, hm pend]
+    conv => lhs; unfold topGo
+    have e1 : ("`endcelldefine" == "`celldefine") = false := by decide
+    simp only [firstWord_endcell, e1, Bool.false_eq_true, if_false, beq_self_eq_true, if_true, hattrs]
+  unfold leafToksX leafCoreX
+  simp only [List.cons_append, List.append_assoc, List.nil_append]
+  -- `celldefine
+  conv => lhs; unfold topGo
+  simp only [firstWord_cell, beq_self_eq_true, if_true]
+  by_cases ha : lf.attrs = []
+  · simp only [ha, starToks, List.isEmpty_nil, if_true, List.nil_append]
+    rw [hmod (f + 1) []]
+    simp [WLeafX.toModule, ha]
+  · have hnd : (lf.attrs.map (·.1)).Nodup := by
+      simp only [attrsOK, Bool.and_eq_true, decide_eq_true_eq] at hat; exact hat.2
+    have hs := star_toks lf.attrs ("module" :: nameT lf.base.name :: (mparamToks lf.params ++ "(" ::
+      (sepNames (lf.base.ports.map (·.name)) ++ ")" :: ";" ::
+        (lf.base.ports.flatMap (fun p => portCore p.dir p.rng p.name) ++ "endmodule" :: "`endcelldefine" :: rest)))) ha hat
+    have hem : lf.attrs.isEmpty = false := by cases hma : lf.attrs <;> simp [hma] at ha ⊢
+    unfold starToks at hs ⊢
+    simp only [hem, Bool.false_eq_true, if_false, List.cons_append, List.append_assoc, List.nil_append, ha] at hs ⊢
+    conv => lhs; unfold topGo
+    have g1 : ("(" == "module") = false := by decide
+    have g2 : ("(" == "primitive") = false := by decide
+    simp only [fw_paren.1, fw_paren.2, g1, g2, Bool.false_eq_true, if_false, beq_self_eq_true, if_true, hs,
+      mergeAttrs_nil lf.attrs hnd]
+    rw [hmod f lf.attrs]
+    simp [WLeafX.toModule]
+
+theorem leafToksX_keep (lf : WLeafX) (h : leafOKX lf = true) : (leafToksX lf).all keepTok = true := by
+  simp only [leafOKX, Bool.and_eq_true] at h
+  have := keep_of_clean _ h.2
+  unfold leafToksX
+  simp only [List.all_cons, List.all_append, List.all_nil, Bool.and_true, this]
+  decide +kernel
+
 def anyToksA : WAnyA → List String
   | .work m => tokensOfA m
-  | .leaf lf => leafToks lf
+  | .leaf lf => leafToksX lf
 
 def anyOKA : WAnyA → Bool
   | .work m => tokOKA m
-  | .leaf lf => leafOK lf
+  | .leaf lf => leafOKX lf
 
 theorem topGo_anysA : ∀ (Ms : List WAnyA) (f : Nat) (acc : List Module),
-    3 * Ms.length + 1 ≤ f → (∀ M ∈ Ms, anyOKA M = true) →
+    4 * Ms.length + 1 ≤ f → (∀ M ∈ Ms, anyOKA M = true) →
     topGo f (Ms.flatMap anyToksA) false [] acc = .ok (acc ++ Ms.map WAnyA.toModule) := by
   intro Ms
   induction Ms with
@@ -249,11 +369,11 @@ theorem topGo_anysA : ∀ (Ms : List WAnyA) (f : Nat) (acc : List Module),
         ih _ _ (by split <;> omega) (fun x hx => hok x (List.mem_cons_of_mem _ hx))]
       simp [WAnyA.toModule]
     | leaf lf =>
-      obtain ⟨g, hg⟩ : ∃ g, f = g + 3 := ⟨f - 3, by omega⟩
+      obtain ⟨g, hg⟩ : ∃ g, f = g + 4 := ⟨f - 4, by omega⟩
       subst hg
-      have hl : leafOK lf = true := hok (.leaf lf) List.mem_cons_self
+      have hl : leafOKX lf = true := hok (.leaf lf) List.mem_cons_self
       simp only [anyToksA]
-      rw [topGo_leaf g lf _ acc hl, ih g _ (by omega) (fun x hx => hok x (List.mem_cons_of_mem _ hx))]
+      rw [topGo_leafX g lf _ acc hl, ih _ _ (by split <;> omega) (fun x hx => hok x (List.mem_cons_of_mem _ hx))]
       simp [WAnyA.toModule]
 
 /-- the tokens of a hierarchical file with assigns (without the comment lines) -/
@@ -264,12 +384,12 @@ theorem anyToksA_keep (M : WAnyA) (h : anyOKA M = true) : (anyToksA M).all keepT
   | work m =>
     simp only [anyOKA, tokOKA, Bool.and_eq_true] at h
     exact keep_of_clean _ h.2
-  | leaf lf => exact leafToks_keep lf h
+  | leaf lf => exact leafToksX_keep lf h
 
-theorem anyToksA_len (M : WAnyA) : 3 ≤ (anyToksA M).length := by
+theorem anyToksA_len (M : WAnyA) : 4 ≤ (anyToksA M).length := by
   cases M with
   | work m => simp [anyToksA, tokensOfA, modToksP]; omega
-  | leaf lf => simp [anyToksA, leafToks, leafCore]
+  | leaf lf => simp [anyToksA, leafToksX, leafCoreX]; omega
 
 /-- **parse_hierA.**  Token level for a hierarchical file with assigns: the REAL `parseV` on the comment lines followed by
     the tokens of the top module and of the later modules returns exactly their syntax trees. -/
@@ -292,7 +412,7 @@ theorem parse_hierA (cs : Toks) (m : WModA) (Ms : List WAnyA) (hc : ∀ c ∈ cs
     rw [this, preprocess_comments cs _ _ hc]
     exact preprocess_keep _ _ (Nat.le_refl _) hkeep
   simp only [h1, bind, Except.bind]
-  have hlen : ∀ (l : List WAnyA), 3 * l.length ≤ (l.flatMap anyToksA).length := by
+  have hlen : ∀ (l : List WAnyA), 4 * l.length ≤ (l.flatMap anyToksA).length := by
     intro l
     induction l with
     | nil => simp
